@@ -286,6 +286,12 @@ pixman_glyph_cache_insert (pixman_glyph_cache_t  *cache,
 	return NULL;
     }
 
+    /* The pixels of an indexed format mean nothing without the palette:
+     * the copy refers to the same one as the image it is copied from.
+     */
+    if (image->bits.indexed)
+	pixman_image_set_indexed (glyph->image, image->bits.indexed);
+
     pixman_image_composite32 (PIXMAN_OP_SRC,
 			      image, NULL, glyph->image, 0, 0, 0, 0, 0, 0,
 			      width, height);
